@@ -472,6 +472,10 @@ class PlanJoinTablesQuery:
             if not isinstance(node, BinaryOperation):
                 return
 
+            if node.op != '=':
+                # only equality maps a model column to a table column
+                return
+
             arg1, arg2 = node.args
             if not (isinstance(arg1, Identifier) and isinstance(arg2, Identifier)):
                 return
